@@ -290,6 +290,8 @@ func runC20(c *Check, a *Analysis) {
 	p := c.P
 	ruleLockBalance(c, a, "R-LOCK-BALANCE", "Conn.mutex", "Transport.connsMu", "Client.lock", "Server.mut", "Server.mutex", "persistConn.mu", "stream.mut")
 	ruleNoCloseUnderLock(c, a, "R-NO-CLOSE-UNDER-LOCK")
+	ruleNormaliseOrder(c, a, "R-NORMALISE-ORDER")
+	ruleQueueConfig(c, a, "R-QUEUE-CONFIG")
 	c.Rule("R-LOCK", "Server.codecs under Server.mutex; Server.listeners under Server.mut; Conn.closing under Conn.mutex", 5)
 	ruleLock(c, a, "R-LOCK", "Server", "codecs", "listeners")
 	ruleSharedLocalMap(c, a, "R-LOCK")
@@ -725,6 +727,7 @@ func runC12(c *Check, a *Analysis) {
 	ruleCodeThresholds(c, a, "R-CODE-THRESHOLD")
 	ruleResolveTotal(c, a, "R-RESOLVE-TOTAL")
 	rulePoolOwnBuffers(c, a, "R-POOL-OWN-BUFFERS")
+	ruleFixedPoolSizes(c, a, "R-FIXED-POOL-SIZE")
 	c.Rule("R-RESOLVE-AGREE", "DialWithOptions and ListenWithOptions resolve socket / body codec / header encoder identically: registry looked up by the Options name field first, the constructor field used only when the registry has no entry; results feed NewClientCodec / NewServerCodec in positions 0 and 1", 8)
 	type res struct {
 		registry, nameField, ctorField   string
